@@ -248,11 +248,15 @@ def main(argv=None) -> int:
               f"[key={f['key']}; met {n}x in this run]")
     rc = 0
     seen = set()
+    violations.sort(key=lambda v: (tuple(v["signature"]), len(v["details"])))
     for v in violations:
-        k = (tuple(v["signature"]), v["replay"])
+        k = tuple(v["signature"])
         if k in seen:
             continue
         seen.add(k)
+        same = sum(1 for w in violations if tuple(w["signature"]) == k)
+        if same > 1:
+            print(f"  ({same} workers reported this signature; showing one)")
         print(f"VIOLATION property={prop} replay={v['replay']}")
         print(f"  clause={v['clause']} signature={'|'.join(v['signature'])}")
         print("  " + v["details"][:1500].replace("\n", "\n  "))
